@@ -243,6 +243,14 @@ class PartialOps:
                         ev.append("nonempty@" + xp)
                     if isinstance(op, ast.Lt) and not branch and c >= 1:
                         ev.append("nonempty@" + xp)
+                    if isinstance(op, ast.NotEq) and not branch and c >= 1:
+                        ev.append(f"minlen:{c}@" + xp)
+                        ev.append("nonempty@" + xp)
+                    if isinstance(op, ast.Lt) and not branch and c >= 1:
+                        ev.append(f"minlen:{c}@" + xp)
+                    if isinstance(op, ast.LtE) and not branch and c >= 0:
+                        ev.append(f"minlen:{c + 1}@" + xp)
+                        ev.append("nonempty@" + xp)
             # k in T
             if isinstance(op, ast.In) and branch or isinstance(op, ast.NotIn) and not branch:
                 kp = path_of(left)
